@@ -308,6 +308,7 @@ fn visit(which: Which, p: &Pos, b: &Board, mg: &MoveGenerator, st: &mut Stats, o
         st.bump(f);
     }
     st.bump(&format!("src_{}", origin));
+    st.maxi("max_legal_moves_in_one_position", legal.len() as u64);
     let nontrivial = match which {
         Which::C01 => !feats.is_empty(),
         Which::C02 => !legal.is_empty(),
